@@ -36,6 +36,13 @@ ASSUMPTIONS = [
 ]
 
 
+# coverage-guided campaign (pkv/fuzz.py): same strategy and oracle driven by
+# libFuzzer through Hypothesis' fuzz_one_input; pokerkit instrumented
+FUZZ = dict(
+    thorough=dict(procs=16, runs=6000, wall=900),
+)
+
+
 def budget(tier):
     if tier == 'quick':
         return dict(examples=4800, wall=100)
